@@ -110,6 +110,40 @@ func RunRestore(r *rt.Run) error {
 				n++
 				t.Distinct(fmt.Sprintf("restore/%d/%d/%s", ai, bi, variant))
 			}
+			// explicit RestoreTopic after the close (a task restart), possibly twice, then the ids recover: a topic restored into
+			// a LIVE topic object must not keep anything of the old one (levels, listing)
+			for _, variant := range []string{"restore", "restore-twice", "restore-then-collect-restore", "live-restore"} {
+				tr := svc.Begin(t)
+				tr.Register("h1", a)
+				tr.Register("h2", Cfg{Topic: "t1", Kind: "rec", Match: "warn"})
+				tr.CollectTag("t1", "a", 3, 0, "a")
+				tr.CollectTag("t1", "b", 2, 1, "a")
+				tr.CollectTag("t1", "c", 1, 2, "b")
+				switch variant {
+				case "restore":
+					tr.CloseRestore("t1")
+					tr.RestoreNow("t1")
+				case "restore-twice":
+					tr.CloseRestore("t1")
+					tr.RestoreNow("t1")
+					tr.RestoreNow("t1")
+				case "restore-then-collect-restore":
+					tr.CloseRestore("t1")
+					tr.RestoreNow("t1")
+					tr.CollectTag("t1", "b", 3, 3, "a")
+					tr.RestoreNow("t1")
+				case "live-restore":
+					tr.RestoreNow("t1") // no close at all: restore into the live topic
+				}
+				// everything recovers, one id at a time, then goes up again
+				tr.CollectTag("t1", "a", 0, 4, "a")
+				tr.CollectTag("t1", "b", 0, 5, "a")
+				tr.CollectTag("t1", "c", 0, 6, "b")
+				tr.CollectTag("t1", "a", 2, 7, "a")
+				tr.End()
+				n++
+				t.Distinct(fmt.Sprintf("restore-now/%d/%d/%s", ai, bi, variant))
+			}
 			// the handler registry changes WHILE the topic is closed: the next collect must still restore the stored event
 			// states (previous levels, topic level, listing) and hand the event to exactly the handlers then on record
 			for _, closedOp := range []string{"reg-spec", "reg-anon", "dereg", "replace", "rename", "reg-spec-other-topic"} {
